@@ -46,6 +46,8 @@ def _fragment(prop):
     # VERIF_FINDINGS_SUFFIX=.after-fix: try the check against a worktree that already contains the prepared fixes
     p = os.path.join(lib.VERIF, "findings.d", prop + ".json" + os.environ.get("VERIF_FINDINGS_SUFFIX", ""))
     if not os.path.exists(p):
+        p = os.path.join(lib.VERIF, "findings.d", prop + ".json")
+    if not os.path.exists(p):
         return []
     with open(p) as f:
         return json.load(f)
@@ -136,7 +138,8 @@ def spec_dir(ctx, cfgs):
 
 
 KVS = ["input", "hdr", "payload"]            # how two trigger ids are made different
-FKS = ["num-static", "num-var", "arr-var", "true-var", "false-var", "str-var"]   # how an "odd" filter value is written
+FKS = ["num-static", "num-var", "arr-var", "true-var", "false-var", "str-var",   # how an "odd" filter value is written
+       "in2-static", "in2-var", "notin2", "str2-var"]                              # ... IN / NOT{IN} with two value templates (the second one matches)
 
 
 def to_schedule(tag, idx, b, kv, fk="num-static"):
@@ -167,7 +170,7 @@ def nontrivial(s):
     return sw >= 3
 
 
-def generate(ctx, tag, cfgtext, rng, cap=None, simulate=None, depth=None, timeout=900, workers=8):
+def generate(ctx, tag, cfgtext, rng, cap=None, simulate=None, depth=None, timeout=900, workers=8, fks=None):
     if rng is None:
         rng = random.Random("%d-%s" % (ctx.seed, tag))
     d = spec_dir(ctx, {"Gen_Subs_%s.cfg" % tag: cfgtext})
@@ -183,7 +186,7 @@ def generate(ctx, tag, cfgtext, rng, cap=None, simulate=None, depth=None, timeou
     if cap is not None and len(beh) > cap:
         rng.shuffle(beh)
         beh = beh[:cap]
-    scheds = [to_schedule(tag, i, b, rng.choice(KVS), rng.choice(FKS)) for i, b in enumerate(beh)]
+    scheds = [to_schedule(tag, i, b, rng.choice(KVS), rng.choice(fks or FKS)) for i, b in enumerate(beh)]
     ctx.log("%s: %d distinct behaviours generated, %d chosen" % (tag, total, len(scheds)))
     return scheds, total
 
@@ -336,6 +339,10 @@ def validate(ctx, prop, tag, events_path, scheds, results, binary=None, depth=0)
                 "/".join(invs), idx - s, json.dumps({k: ev[k] for k in ("ev", "k", "i", "j", "x", "y", "z")}))
         else:
             key = "nonconformance:%s:%s" % (ev["ev"], ev["k"])
+            sch = by_id.get(cid) or {}
+            if ev["ev"] == "trig.fanout" and any(c.get("filt") == "odd" for c in sch.get("subs", [])):
+                # a wrong number of subscribers passed their filter: the way the filter is written is part of the signature
+                key = "filter:%s:%s" % (sch.get("fk"), key)
             msg = ("the recorded trace is not a behaviour of the specification: event #%d %s is not an enabled action of its actor"
                    % (idx - s, json.dumps({k: ev.get(k) for k in ("ev", "k", "i", "j", "x", "y", "z", "trig", "subs", "sinc", "sdec", "tinc", "tdec", "uncancelled", "wedged") if k in ev})))
         ctx.violation(key, "%s; schedule %s (rejected again when re-executed)" % (msg, cid),
@@ -367,6 +374,9 @@ def model_check(ctx, cfgs, negative):
         r = ctx.tlc("conc", "MC_Subs", cfg, timeout=900, workers=8, count=False, tag="mc-asis-negative")
         if r.violated not in expect:
             raise lib.Inconclusive("sanity: the as-is protocol (%s) should violate %s in the model, TLC said %r / %r" % (cfg, expect, r.violated, r.error))
+
+
+FKS_SINGLE = FKS[:6]   # one value template per filter (the multi-template kinds are C12's subject)
 
 
 def generate_all(ctx, jobs, parallel=4):
